@@ -260,3 +260,55 @@ Definition check_201 (fs : list field) : verdict :=
     | _ => VBad 96 []
     end
   end.
+
+(* ---- 202: capacity independence under the write options (model-free; what is filled in for absent fields is C16's subject).
+        fields = option bits, document text, observations; the first observation (Do, pooled buffer) is the reference. ---- *)
+
+(* out = ref with some 3-byte blocks inserted (a stale field header: type byte + id) *)
+Fixpoint ins3 (fuel : nat) (ref out : list Z) : bool :=
+  match fuel with
+  | O => false
+  | S f =>
+    match out with
+    | [] => match ref with [] => true | _ => false end
+    | y :: o' =>
+      (match ref with x :: r' => (x =? y) && ins3 f r' o' | [] => false end) ||
+      (match out with _ :: _ :: _ :: o3 => ins3 f ref o3 | _ => false end)
+    end
+  end.
+
+(* the text has a member value `null` directly before a closing brace *)
+Fixpoint null_last (bs : list Z) : bool :=
+  match bs with
+  | [] => false
+  | c :: r =>
+    (if c =? 110 then
+       match match_lit [117; 108; 108] r with
+       | Some r' => match skip_ws r' with c2 :: _ => c2 =? 125 | [] => false end
+       | None => false
+       end
+     else false) || null_last r
+  end.
+
+Definition check_202 (fs : list field) : verdict :=
+  match fs with
+  | FZ bits :: FB text :: FZ n :: r =>
+    if (n <? 1) || (n >? 100000) then VBad 98 [] else
+    match parse_obs02 (Z.to_nat n) r with
+    | Some ((_, _, ec0, ref) :: obs) =>
+      if (ec0 =? 9) || (ec0 =? 10) || (ec0 =? 11) then VBad 9 [] else
+      fold_left (fun acc ob =>
+        let '(cp, pre, ec, out) := ob in
+        worse acc
+          (if (ec =? 9) || (ec =? 10) || (ec =? 11) then VBad 9 [FZ cp]
+           else if negb (ec0 =? 0) then (if negb (ec =? 0) then VOk else VBad 2 [FZ cp])
+           else if negb (ec =? 0) then VBad 3 [FZ cp; FZ ec]
+           else if bytes_eqb out (pre ++ ref) then VOk
+           (* finding 210: the buffer ran out while the absent fields were being written after a null LAST member:
+              the unwound field header comes back (native J2T_STORE restores buf->len to its value before the unwinding) *)
+           else if null_last text && negb (bits =? 0) && ins3 (S (2 * length out)) (pre ++ ref) out then VKnown 210
+           else VBad 1 [FB (pre ++ ref); FZ cp])) obs VOk
+    | _ => VBad 97 []
+    end
+  | _ => VBad 99 []
+  end.
